@@ -15,6 +15,7 @@ CONSTANTS
   ArmorHdrs = {0, 1, 2}
   SigBools = {TRUE, FALSE}
   BigSel = {}
+  ArmorMaxFields = 3
   Emit = FALSE
 SPECIFICATION BSpec
 INVARIANT RoundTrip
